@@ -235,3 +235,89 @@ package ge25519
 //@   ensures result ==> (fe(r.x) == 0 || fe(r.x) % 2 == p[31] >> 7)
 //@   assume-ensures result == decodable(bytesOf(p[0:32]))
 //@   assume-ensures result ==> P3(*r) == decpt(bytesOf(p[0:32]))
+
+// ---------------- conditional move, table lookup ----------------
+
+//@ config movecond_unsafe
+//@ func moveConditionalBytes(out, in, flag)
+//@   havoc-global unalignedOk
+//@   cases flag == 0 | flag == 1
+//@   modifies *out
+//@   ensures flag == 1 ==> *out == old(*in)
+//@   ensures flag == 0 ==> *out == old(*out)
+
+//@ config !movecond_unsafe
+//@ func moveConditionalBytes(out, in, flag)
+//@   cases flag == 0 | flag == 1
+//@   modifies *out
+//@   ensures flag == 1 ==> *out == old(*in)
+//@   ensures flag == 0 ==> *out == old(*out)
+//@ config any
+
+//@ ufun ptN0(Int, Int, Int) Pt
+//@ spec PN0(g) = ptN0(fe(g.ysubx), fe(g.xaddy), fe(g.t2d))
+// validity of a niels triple (y-x, y+x, 2xy) resp. (y-x, y+x, 2dxy): (y+x)^2 - (y-x)^2 = 4xy
+//@ spec nvalid0(g) = cong(2 * fval(g.t2d), fval(g.xaddy) * fval(g.xaddy) - fval(g.ysubx) * fval(g.ysubx), P)
+//@ spec nvalid(g) = cong(2 * fval(g.t2d), D * (fval(g.xaddy) * fval(g.xaddy) - fval(g.ysubx) * fval(g.ysubx)), P)
+// negation of a niels point: swap y-x and y+x, negate the t component  [bridge B12, part of M2]
+//@ axiom NEGN [M2]: all(a, all(b, all(c, all(k, ptN(a, b, c) == mulB(k) ==> ptN(b, a, (P - c) % P) == mulB(0 - k)))))
+//@ axiom NEGN0 [M2]: all(a, all(b, all(c, all(k, ptN0(a, b, c) == mulB(k) ==> ptN0(b, a, (P - c) % P) == mulB(0 - k)))))
+
+// Table lookup. NielsBaseMultiples[8*pos+j] is (j+1)*256^pos*B in packed form (y-x, y+x, 2xy) for
+// pos = 0 and (y-x, y+x, 2dxy) for pos > 0; these 256 facts are validated by the ground back end.
+//@ config !asm
+//@ func windowbEqual(b, c)
+//@   requires b < 1<<31 && c < 1<<31
+//@   ensures result == ite(b == c, 1, 0)
+
+//@ func scalarmultBaseChooseNiels(t, table, pos, b)
+//@   bind table = &NielsBaseMultiples
+//@   inline Expand, SwapConditional, Neg, moveConditionalBytes, windowbEqual
+//@   cases pos == 0 && b == -8 | pos == 0 && b == -7 | pos == 0 && b == -6 | pos == 0 && b == -5 | pos == 0 && b == -4 | pos == 0 && b == -3 | pos == 0 && b == -2 | pos == 0 && b == -1 | pos == 0 && b == 0 | pos == 0 && b == 1 | pos == 0 && b == 2 | pos == 0 && b == 3 | pos == 0 && b == 4 | pos == 0 && b == 5 | pos == 0 && b == 6 | pos == 0 && b == 7 | pos == 0 && b == 8 | pos == 1 && b == -8 | pos == 1 && b == -7 | pos == 1 && b == -6 | pos == 1 && b == -5 | pos == 1 && b == -4 | pos == 1 && b == -3 | pos == 1 && b == -2 | pos == 1 && b == -1 | pos == 1 && b == 0 | pos == 1 && b == 1 | pos == 1 && b == 2 | pos == 1 && b == 3 | pos == 1 && b == 4 | pos == 1 && b == 5 | pos == 1 && b == 6 | pos == 1 && b == 7 | pos == 1 && b == 8 | pos == 2 && b == -8 | pos == 2 && b == -7 | pos == 2 && b == -6 | pos == 2 && b == -5 | pos == 2 && b == -4 | pos == 2 && b == -3 | pos == 2 && b == -2 | pos == 2 && b == -1 | pos == 2 && b == 0 | pos == 2 && b == 1 | pos == 2 && b == 2 | pos == 2 && b == 3 | pos == 2 && b == 4 | pos == 2 && b == 5 | pos == 2 && b == 6 | pos == 2 && b == 7 | pos == 2 && b == 8 | pos == 3 && b == -8 | pos == 3 && b == -7 | pos == 3 && b == -6 | pos == 3 && b == -5 | pos == 3 && b == -4 | pos == 3 && b == -3 | pos == 3 && b == -2 | pos == 3 && b == -1 | pos == 3 && b == 0 | pos == 3 && b == 1 | pos == 3 && b == 2 | pos == 3 && b == 3 | pos == 3 && b == 4 | pos == 3 && b == 5 | pos == 3 && b == 6 | pos == 3 && b == 7 | pos == 3 && b == 8 | pos == 4 && b == -8 | pos == 4 && b == -7 | pos == 4 && b == -6 | pos == 4 && b == -5 | pos == 4 && b == -4 | pos == 4 && b == -3 | pos == 4 && b == -2 | pos == 4 && b == -1 | pos == 4 && b == 0 | pos == 4 && b == 1 | pos == 4 && b == 2 | pos == 4 && b == 3 | pos == 4 && b == 4 | pos == 4 && b == 5 | pos == 4 && b == 6 | pos == 4 && b == 7 | pos == 4 && b == 8 | pos == 5 && b == -8 | pos == 5 && b == -7 | pos == 5 && b == -6 | pos == 5 && b == -5 | pos == 5 && b == -4 | pos == 5 && b == -3 | pos == 5 && b == -2 | pos == 5 && b == -1 | pos == 5 && b == 0 | pos == 5 && b == 1 | pos == 5 && b == 2 | pos == 5 && b == 3 | pos == 5 && b == 4 | pos == 5 && b == 5 | pos == 5 && b == 6 | pos == 5 && b == 7 | pos == 5 && b == 8 | pos == 6 && b == -8 | pos == 6 && b == -7 | pos == 6 && b == -6 | pos == 6 && b == -5 | pos == 6 && b == -4 | pos == 6 && b == -3 | pos == 6 && b == -2 | pos == 6 && b == -1 | pos == 6 && b == 0 | pos == 6 && b == 1 | pos == 6 && b == 2 | pos == 6 && b == 3 | pos == 6 && b == 4 | pos == 6 && b == 5 | pos == 6 && b == 6 | pos == 6 && b == 7 | pos == 6 && b == 8 | pos == 7 && b == -8 | pos == 7 && b == -7 | pos == 7 && b == -6 | pos == 7 && b == -5 | pos == 7 && b == -4 | pos == 7 && b == -3 | pos == 7 && b == -2 | pos == 7 && b == -1 | pos == 7 && b == 0 | pos == 7 && b == 1 | pos == 7 && b == 2 | pos == 7 && b == 3 | pos == 7 && b == 4 | pos == 7 && b == 5 | pos == 7 && b == 6 | pos == 7 && b == 7 | pos == 7 && b == 8 | pos == 8 && b == -8 | pos == 8 && b == -7 | pos == 8 && b == -6 | pos == 8 && b == -5 | pos == 8 && b == -4 | pos == 8 && b == -3 | pos == 8 && b == -2 | pos == 8 && b == -1 | pos == 8 && b == 0 | pos == 8 && b == 1 | pos == 8 && b == 2 | pos == 8 && b == 3 | pos == 8 && b == 4 | pos == 8 && b == 5 | pos == 8 && b == 6 | pos == 8 && b == 7 | pos == 8 && b == 8 | pos == 9 && b == -8 | pos == 9 && b == -7 | pos == 9 && b == -6 | pos == 9 && b == -5 | pos == 9 && b == -4 | pos == 9 && b == -3 | pos == 9 && b == -2 | pos == 9 && b == -1 | pos == 9 && b == 0 | pos == 9 && b == 1 | pos == 9 && b == 2 | pos == 9 && b == 3 | pos == 9 && b == 4 | pos == 9 && b == 5 | pos == 9 && b == 6 | pos == 9 && b == 7 | pos == 9 && b == 8 | pos == 10 && b == -8 | pos == 10 && b == -7 | pos == 10 && b == -6 | pos == 10 && b == -5 | pos == 10 && b == -4 | pos == 10 && b == -3 | pos == 10 && b == -2 | pos == 10 && b == -1 | pos == 10 && b == 0 | pos == 10 && b == 1 | pos == 10 && b == 2 | pos == 10 && b == 3 | pos == 10 && b == 4 | pos == 10 && b == 5 | pos == 10 && b == 6 | pos == 10 && b == 7 | pos == 10 && b == 8 | pos == 11 && b == -8 | pos == 11 && b == -7 | pos == 11 && b == -6 | pos == 11 && b == -5 | pos == 11 && b == -4 | pos == 11 && b == -3 | pos == 11 && b == -2 | pos == 11 && b == -1 | pos == 11 && b == 0 | pos == 11 && b == 1 | pos == 11 && b == 2 | pos == 11 && b == 3 | pos == 11 && b == 4 | pos == 11 && b == 5 | pos == 11 && b == 6 | pos == 11 && b == 7 | pos == 11 && b == 8 | pos == 12 && b == -8 | pos == 12 && b == -7 | pos == 12 && b == -6 | pos == 12 && b == -5 | pos == 12 && b == -4 | pos == 12 && b == -3 | pos == 12 && b == -2 | pos == 12 && b == -1 | pos == 12 && b == 0 | pos == 12 && b == 1 | pos == 12 && b == 2 | pos == 12 && b == 3 | pos == 12 && b == 4 | pos == 12 && b == 5 | pos == 12 && b == 6 | pos == 12 && b == 7 | pos == 12 && b == 8 | pos == 13 && b == -8 | pos == 13 && b == -7 | pos == 13 && b == -6 | pos == 13 && b == -5 | pos == 13 && b == -4 | pos == 13 && b == -3 | pos == 13 && b == -2 | pos == 13 && b == -1 | pos == 13 && b == 0 | pos == 13 && b == 1 | pos == 13 && b == 2 | pos == 13 && b == 3 | pos == 13 && b == 4 | pos == 13 && b == 5 | pos == 13 && b == 6 | pos == 13 && b == 7 | pos == 13 && b == 8 | pos == 14 && b == -8 | pos == 14 && b == -7 | pos == 14 && b == -6 | pos == 14 && b == -5 | pos == 14 && b == -4 | pos == 14 && b == -3 | pos == 14 && b == -2 | pos == 14 && b == -1 | pos == 14 && b == 0 | pos == 14 && b == 1 | pos == 14 && b == 2 | pos == 14 && b == 3 | pos == 14 && b == 4 | pos == 14 && b == 5 | pos == 14 && b == 6 | pos == 14 && b == 7 | pos == 14 && b == 8 | pos == 15 && b == -8 | pos == 15 && b == -7 | pos == 15 && b == -6 | pos == 15 && b == -5 | pos == 15 && b == -4 | pos == 15 && b == -3 | pos == 15 && b == -2 | pos == 15 && b == -1 | pos == 15 && b == 0 | pos == 15 && b == 1 | pos == 15 && b == 2 | pos == 15 && b == 3 | pos == 15 && b == 4 | pos == 15 && b == 5 | pos == 15 && b == 6 | pos == 15 && b == 7 | pos == 15 && b == 8 | pos == 16 && b == -8 | pos == 16 && b == -7 | pos == 16 && b == -6 | pos == 16 && b == -5 | pos == 16 && b == -4 | pos == 16 && b == -3 | pos == 16 && b == -2 | pos == 16 && b == -1 | pos == 16 && b == 0 | pos == 16 && b == 1 | pos == 16 && b == 2 | pos == 16 && b == 3 | pos == 16 && b == 4 | pos == 16 && b == 5 | pos == 16 && b == 6 | pos == 16 && b == 7 | pos == 16 && b == 8 | pos == 17 && b == -8 | pos == 17 && b == -7 | pos == 17 && b == -6 | pos == 17 && b == -5 | pos == 17 && b == -4 | pos == 17 && b == -3 | pos == 17 && b == -2 | pos == 17 && b == -1 | pos == 17 && b == 0 | pos == 17 && b == 1 | pos == 17 && b == 2 | pos == 17 && b == 3 | pos == 17 && b == 4 | pos == 17 && b == 5 | pos == 17 && b == 6 | pos == 17 && b == 7 | pos == 17 && b == 8 | pos == 18 && b == -8 | pos == 18 && b == -7 | pos == 18 && b == -6 | pos == 18 && b == -5 | pos == 18 && b == -4 | pos == 18 && b == -3 | pos == 18 && b == -2 | pos == 18 && b == -1 | pos == 18 && b == 0 | pos == 18 && b == 1 | pos == 18 && b == 2 | pos == 18 && b == 3 | pos == 18 && b == 4 | pos == 18 && b == 5 | pos == 18 && b == 6 | pos == 18 && b == 7 | pos == 18 && b == 8 | pos == 19 && b == -8 | pos == 19 && b == -7 | pos == 19 && b == -6 | pos == 19 && b == -5 | pos == 19 && b == -4 | pos == 19 && b == -3 | pos == 19 && b == -2 | pos == 19 && b == -1 | pos == 19 && b == 0 | pos == 19 && b == 1 | pos == 19 && b == 2 | pos == 19 && b == 3 | pos == 19 && b == 4 | pos == 19 && b == 5 | pos == 19 && b == 6 | pos == 19 && b == 7 | pos == 19 && b == 8 | pos == 20 && b == -8 | pos == 20 && b == -7 | pos == 20 && b == -6 | pos == 20 && b == -5 | pos == 20 && b == -4 | pos == 20 && b == -3 | pos == 20 && b == -2 | pos == 20 && b == -1 | pos == 20 && b == 0 | pos == 20 && b == 1 | pos == 20 && b == 2 | pos == 20 && b == 3 | pos == 20 && b == 4 | pos == 20 && b == 5 | pos == 20 && b == 6 | pos == 20 && b == 7 | pos == 20 && b == 8 | pos == 21 && b == -8 | pos == 21 && b == -7 | pos == 21 && b == -6 | pos == 21 && b == -5 | pos == 21 && b == -4 | pos == 21 && b == -3 | pos == 21 && b == -2 | pos == 21 && b == -1 | pos == 21 && b == 0 | pos == 21 && b == 1 | pos == 21 && b == 2 | pos == 21 && b == 3 | pos == 21 && b == 4 | pos == 21 && b == 5 | pos == 21 && b == 6 | pos == 21 && b == 7 | pos == 21 && b == 8 | pos == 22 && b == -8 | pos == 22 && b == -7 | pos == 22 && b == -6 | pos == 22 && b == -5 | pos == 22 && b == -4 | pos == 22 && b == -3 | pos == 22 && b == -2 | pos == 22 && b == -1 | pos == 22 && b == 0 | pos == 22 && b == 1 | pos == 22 && b == 2 | pos == 22 && b == 3 | pos == 22 && b == 4 | pos == 22 && b == 5 | pos == 22 && b == 6 | pos == 22 && b == 7 | pos == 22 && b == 8 | pos == 23 && b == -8 | pos == 23 && b == -7 | pos == 23 && b == -6 | pos == 23 && b == -5 | pos == 23 && b == -4 | pos == 23 && b == -3 | pos == 23 && b == -2 | pos == 23 && b == -1 | pos == 23 && b == 0 | pos == 23 && b == 1 | pos == 23 && b == 2 | pos == 23 && b == 3 | pos == 23 && b == 4 | pos == 23 && b == 5 | pos == 23 && b == 6 | pos == 23 && b == 7 | pos == 23 && b == 8 | pos == 24 && b == -8 | pos == 24 && b == -7 | pos == 24 && b == -6 | pos == 24 && b == -5 | pos == 24 && b == -4 | pos == 24 && b == -3 | pos == 24 && b == -2 | pos == 24 && b == -1 | pos == 24 && b == 0 | pos == 24 && b == 1 | pos == 24 && b == 2 | pos == 24 && b == 3 | pos == 24 && b == 4 | pos == 24 && b == 5 | pos == 24 && b == 6 | pos == 24 && b == 7 | pos == 24 && b == 8 | pos == 25 && b == -8 | pos == 25 && b == -7 | pos == 25 && b == -6 | pos == 25 && b == -5 | pos == 25 && b == -4 | pos == 25 && b == -3 | pos == 25 && b == -2 | pos == 25 && b == -1 | pos == 25 && b == 0 | pos == 25 && b == 1 | pos == 25 && b == 2 | pos == 25 && b == 3 | pos == 25 && b == 4 | pos == 25 && b == 5 | pos == 25 && b == 6 | pos == 25 && b == 7 | pos == 25 && b == 8 | pos == 26 && b == -8 | pos == 26 && b == -7 | pos == 26 && b == -6 | pos == 26 && b == -5 | pos == 26 && b == -4 | pos == 26 && b == -3 | pos == 26 && b == -2 | pos == 26 && b == -1 | pos == 26 && b == 0 | pos == 26 && b == 1 | pos == 26 && b == 2 | pos == 26 && b == 3 | pos == 26 && b == 4 | pos == 26 && b == 5 | pos == 26 && b == 6 | pos == 26 && b == 7 | pos == 26 && b == 8 | pos == 27 && b == -8 | pos == 27 && b == -7 | pos == 27 && b == -6 | pos == 27 && b == -5 | pos == 27 && b == -4 | pos == 27 && b == -3 | pos == 27 && b == -2 | pos == 27 && b == -1 | pos == 27 && b == 0 | pos == 27 && b == 1 | pos == 27 && b == 2 | pos == 27 && b == 3 | pos == 27 && b == 4 | pos == 27 && b == 5 | pos == 27 && b == 6 | pos == 27 && b == 7 | pos == 27 && b == 8 | pos == 28 && b == -8 | pos == 28 && b == -7 | pos == 28 && b == -6 | pos == 28 && b == -5 | pos == 28 && b == -4 | pos == 28 && b == -3 | pos == 28 && b == -2 | pos == 28 && b == -1 | pos == 28 && b == 0 | pos == 28 && b == 1 | pos == 28 && b == 2 | pos == 28 && b == 3 | pos == 28 && b == 4 | pos == 28 && b == 5 | pos == 28 && b == 6 | pos == 28 && b == 7 | pos == 28 && b == 8 | pos == 29 && b == -8 | pos == 29 && b == -7 | pos == 29 && b == -6 | pos == 29 && b == -5 | pos == 29 && b == -4 | pos == 29 && b == -3 | pos == 29 && b == -2 | pos == 29 && b == -1 | pos == 29 && b == 0 | pos == 29 && b == 1 | pos == 29 && b == 2 | pos == 29 && b == 3 | pos == 29 && b == 4 | pos == 29 && b == 5 | pos == 29 && b == 6 | pos == 29 && b == 7 | pos == 29 && b == 8 | pos == 30 && b == -8 | pos == 30 && b == -7 | pos == 30 && b == -6 | pos == 30 && b == -5 | pos == 30 && b == -4 | pos == 30 && b == -3 | pos == 30 && b == -2 | pos == 30 && b == -1 | pos == 30 && b == 0 | pos == 30 && b == 1 | pos == 30 && b == 2 | pos == 30 && b == 3 | pos == 30 && b == 4 | pos == 30 && b == 5 | pos == 30 && b == 6 | pos == 30 && b == 7 | pos == 30 && b == 8 | pos == 31 && b == -8 | pos == 31 && b == -7 | pos == 31 && b == -6 | pos == 31 && b == -5 | pos == 31 && b == -4 | pos == 31 && b == -3 | pos == 31 && b == -2 | pos == 31 && b == -1 | pos == 31 && b == 0 | pos == 31 && b == 1 | pos == 31 && b == 2 | pos == 31 && b == 3 | pos == 31 && b == 4 | pos == 31 && b == 5 | pos == 31 && b == 6 | pos == 31 && b == 7 | pos == 31 && b == 8
+//@   modifies *t
+//@   ensures rednb(*t)
+//@   ensures pos == 0 ==> (PN0(*t) == mulB(b) && nvalid0(*t))
+//@   ensures pos > 0 ==> (PN(*t) == mulB(b * pow2(8 * pos)) && nvalid(*t))
+
+//@ config asm
+//@ func scalarmultBaseChooseNiels(t, table, pos, b)
+//@   assumed
+//@   bind table = &NielsBaseMultiples
+//@   requires 0 <= pos && pos < 32 && -8 <= b && b <= 8
+//@   modifies *t
+//@   ensures rednb(*t)
+//@   ensures pos == 0 ==> (PN0(*t) == mulB(b) && nvalid0(*t))
+//@   ensures pos > 0 ==> (PN(*t) == mulB(b * pow2(8 * pos)) && nvalid(*t))
+//@ config any
+
+// ---------------- scalar multiplications ----------------
+
+// group laws on multiples of the base point  [M2]
+//@ axiom GADD [M2]: all(a, all(b, padd(mulB(a), mulB(b)) == mulB(a + b)))
+//@ axiom GDBL [M2]: all(a, pdbl(mulB(a)) == mulB(2 * a))
+// multiplying the t component of (y-x, y+x, 2xy) by d gives the form (y-x, y+x, 2dxy) of the same point  [bridge]
+//@ axiom N0TON [M2]: all(a, all(b, all(c, all(k, ptN0(a, b, c) == mulB(k) ==> ptN(a, b, (c * D) % P) == mulB(k)))))
+
+//@ func ScalarmultBaseNiels(r, basepointTable, s)
+//@   bind basepointTable = &NielsBaseMultiples
+//@   uses GADD, GDBL, N0TON
+//@   requires canon(*s) && sval(*s) < 1<<255
+//@   modifies *r
+//@   lemma before call scalarmultBaseChooseNiels#2 : red4(*r) && tvalid(*r) ;; assume P3(*r) == mulB(b[1])
+//@   lemma after call Mul#1 : PN(t) == mulB(b[0]) && nvalid(t)
+//@   ensures red4(*r) && tvalid(*r)
+//@   ensures P3(*r) == mulB(sval(old(*s)))
+
+// [s1]p1 + [s2]B by interleaved sliding windows. Proved of the body: memory safety, the
+// magnitude discipline at every call site and the frame. The group-level result is ASSUMED
+// (it rests on the assumed digit property of ContractSlidingWindow and on a Horner invariant
+// over a data-dependent loop that is not discharged).
+//@ func DoubleScalarmultVartime(r, p1, s1, s2)
+//@   requires red4(*p1) && tvalid(*p1) && canon(*s1) && canon(*s2)
+//@   modifies *r
+//@   loop#2 modifies i
+//@   loop#2 invariant -1 <= i && i <= 255
+//@   loop#3 modifies i, *r, t
+//@   loop#3 invariant -1 <= i && i <= 255 && red3(*r)
+//@   ensures red3(*r)
+//@   assume-ensures (sval(*s1) < 1<<253 && sval(*s2) < 1<<253) ==> P3(*r) == lc2(P3(*p1), sval(*s1), sval(*s2))
